@@ -281,4 +281,8 @@ def run(rep, prog, thorough):
     for attr, val, g, e in cli.config_stores():
         by_attr.setdefault(attr, []).append((val, g, e))
     check_lookups_recorded(rep, cli, by_attr, "C10.R5.lookup-bypasses-filter")
+    # a look-up finds hidden / non-serviceable / informational PELs too: the selection rule with a look-up id set and no
+    # other selection is "every PEL" (the decision table of C07, which contains these rows)
+    from .c07 import check_decision_table
+    check_decision_table(rep, prog, False)
     rep.floor("obligations", len(rep.obligations), 15)
